@@ -10,6 +10,8 @@ import AC.Drv.C10
 import AC.Drv.C11
 import AC.Drv.C12
 import AC.Drv.C13
+import AC.Drv.C14
+import AC.Drv.C15
 import AC.Drv.C18
 import AC.Drv.C19
 import AC.Drv.C20
@@ -24,6 +26,7 @@ def dispatch (line : String) : String :=
       | "c02" => handleC02 f
       | "c03" => handleC03 f
       | "c04" => handleC04 f
+      | "c04b" => handleC04b f
       | "c16" => handleC16 f
       | "c05" => handleC05 f
       | "c17" => handleC17 f
@@ -34,6 +37,8 @@ def dispatch (line : String) : String :=
       | "c11" => handleC11 f
       | "c12" => handleC12 f
       | "c13" => handleC13 f
+      | "c14" => handleC14 f
+      | "c15" => handleC15 f
       | "c19" => handleC19 f
       | "c18" => handleC18 f
       | "c20" => handleC20 f
